@@ -76,7 +76,41 @@ func gen(g *kernel.Rng, seed uint64, tier string) *kernel.Plan {
 	if g.Bool(0.02) {
 		p.Cfg["ucsweep"] = 1
 	}
-	switch g.Pick(7, 3) {
+	switch g.Pick(6, 3, 3) {
+	case 2:
+		// the canonical publish/play flow, each endpoint one sequential script
+		p.Variant = "flow"
+		noise := func(e int) {
+			for k := g.Range(0, 3); k > 0; k-- {
+				op := genPacketOp(g, e, false)
+				for op.K != "was" && op.K != "spb" && op.K != "uc" && op.K != "scs" {
+					op = genPacketOp(g, e, false)
+				}
+				p.Ops = append(p.Ops, op)
+			}
+		}
+		p.Ops = append(p.Ops, kernel.Op{K: "connect", T: 0, N: []int64{int64(g.U32()), int64(g.Range(1, 30)), int64(g.Intn(2)), int64(g.U32())}})
+		p.Ops = append(p.Ops, kernel.Op{K: "expect", T: 1, S: []string{"*rtmp.ConnectAppPacket"}})
+		noise(1)
+		p.Ops = append(p.Ops, kernel.Op{K: "connectRes", T: 1, N: []int64{4, int64(g.U32()), int64(g.Range(1, 30)), int64(g.Intn(2)), int64(g.U32())}})
+		p.Ops = append(p.Ops, kernel.Op{K: "expect", T: 0, S: []string{"*rtmp.ConnectAppResPacket"}})
+		tq := int64(8)
+		for k := g.Range(1, 3); k > 0; k-- {
+			noise(0)
+			p.Ops = append(p.Ops, kernel.Op{K: "createStream", T: 0, N: []int64{tq, 0, 0}})
+			p.Ops = append(p.Ops, kernel.Op{K: "expect", T: 1, S: []string{"*rtmp.CallPacket"}})
+			noise(1)
+			p.Ops = append(p.Ops, kernel.Op{K: "createStreamRes", T: 1, N: []int64{tq, int64(g.Range(0, 20)), 0, 0}})
+			p.Ops = append(p.Ops, kernel.Op{K: "expect", T: 0, S: []string{"*rtmp.CreateStreamResPacket"}})
+			tq += 4 * int64(g.Range(1, 3))
+		}
+		if g.Bool(0.5) {
+			p.Ops = append(p.Ops, kernel.Op{K: "publish", T: 0, N: []int64{tq, int64(g.U32()), int64(g.OneOf(1, 8, 40)), int64(g.OneOf(0, 4))}})
+			p.Ops = append(p.Ops, kernel.Op{K: "expect", T: 1, S: []string{"*rtmp.PublishPacket"}})
+		} else {
+			p.Ops = append(p.Ops, kernel.Op{K: "play", T: 0, N: []int64{tq, int64(g.U32()), int64(g.OneOf(1, 8, 40))}})
+			p.Ops = append(p.Ops, kernel.Op{K: "expect", T: 1, S: []string{"*rtmp.CallPacket"}})
+		}
 	case 0:
 		p.Variant = "stream"
 		n := g.Range(1, 25)
@@ -201,6 +235,35 @@ func run(p *kernel.Plan) (res *kernel.Result) {
 			return true
 		case "wait", "waitmsg":
 			return true
+		case "expect":
+			if len(op.S) < 1 {
+				return true
+			}
+			rr := recvRec{mode: "wait", want: op.S[0], step0: s.S.Now()}
+			m, pkt, err, known := expectTyped(e.Proto, op.S[0])
+			if !known {
+				return true
+			}
+			rr.err = err
+			rr.step = s.S.Now()
+			if m != nil {
+				rr.msgType, rr.payload = byte(m.MessageType), m.Payload
+			}
+			if pkt != nil && !reflect.ValueOf(pkt).IsNil() {
+				rr.pktType = typeName(pkt)
+				if b, err := pkt.MarshalBinary(); err == nil {
+					rr.remEq = m != nil && bytes.Equal(b, m.Payload)
+					rr.sizeOK = pkt.Size() == len(b)
+				}
+			}
+			sd.recvs = append(sd.recvs, rr)
+			sd.recvCnt++
+			t.Evf("expect", "%s want=%s got=%s err=%v", e.Name, rr.want, rr.pktType, err)
+			if err != nil {
+				e.Crashed = true
+				e.Conn.Close()
+			}
+			return true
 		}
 		pkt, kind := rtmpx.BuildPacket(op)
 		if pkt == nil {
@@ -258,6 +321,9 @@ func run(p *kernel.Plan) (res *kernel.Result) {
 	s.ReaderFn = func(s *rtmpx.Session, e *rtmpx.End, t *kernel.Task) {
 		sd := sides[idx(e)]
 		defer func() { sd.done = 1 }()
+		if p.Variant == "flow" {
+			return // each endpoint is one sequential script run by its writer task
+		}
 		record := func(rr recvRec, m *rtmp.Message, pkt rtmp.Packet) {
 			rr.step = s.S.Now()
 			if m != nil {
@@ -285,39 +351,8 @@ func run(p *kernel.Plan) (res *kernel.Result) {
 					continue
 				}
 				rr := recvRec{mode: "wait", want: op.S[0], step0: s.S.Now()}
-				var m *rtmp.Message
-				var pkt rtmp.Packet
-				var err error
-				switch op.S[0] {
-				case "*rtmp.ConnectAppPacket":
-					var q *rtmp.ConnectAppPacket
-					m, err = e.Proto.ExpectPacket(&q)
-					pkt = q
-				case "*rtmp.PublishPacket":
-					var q *rtmp.PublishPacket
-					m, err = e.Proto.ExpectPacket(&q)
-					pkt = q
-				case "*rtmp.CallPacket":
-					var q *rtmp.CallPacket
-					m, err = e.Proto.ExpectPacket(&q)
-					pkt = q
-				case "*rtmp.SetChunkSize":
-					var q *rtmp.SetChunkSize
-					m, err = e.Proto.ExpectPacket(&q)
-					pkt = q
-				case "*rtmp.WindowAcknowledgementSize":
-					var q *rtmp.WindowAcknowledgementSize
-					m, err = e.Proto.ExpectPacket(&q)
-					pkt = q
-				case "*rtmp.SetPeerBandwidth":
-					var q *rtmp.SetPeerBandwidth
-					m, err = e.Proto.ExpectPacket(&q)
-					pkt = q
-				case "*rtmp.UserControl":
-					var q *rtmp.UserControl
-					m, err = e.Proto.ExpectPacket(&q)
-					pkt = q
-				default:
+				m, pkt, err, known := expectTyped(e.Proto, op.S[0])
+				if !known {
 					continue
 				}
 				rr.err = err
@@ -408,6 +443,52 @@ func run(p *kernel.Plan) (res *kernel.Result) {
 	return res
 }
 
+// expectTyped calls ExpectPacket with a pointer of the wanted packet type.
+func expectTyped(pr *rtmp.Protocol, want string) (m *rtmp.Message, pkt rtmp.Packet, err error, known bool) {
+	known = true
+	switch want {
+	case "*rtmp.ConnectAppPacket":
+		var q *rtmp.ConnectAppPacket
+		m, err = pr.ExpectPacket(&q)
+		pkt = q
+	case "*rtmp.ConnectAppResPacket":
+		var q *rtmp.ConnectAppResPacket
+		m, err = pr.ExpectPacket(&q)
+		pkt = q
+	case "*rtmp.CreateStreamResPacket":
+		var q *rtmp.CreateStreamResPacket
+		m, err = pr.ExpectPacket(&q)
+		pkt = q
+	case "*rtmp.PublishPacket":
+		var q *rtmp.PublishPacket
+		m, err = pr.ExpectPacket(&q)
+		pkt = q
+	case "*rtmp.CallPacket":
+		var q *rtmp.CallPacket
+		m, err = pr.ExpectPacket(&q)
+		pkt = q
+	case "*rtmp.SetChunkSize":
+		var q *rtmp.SetChunkSize
+		m, err = pr.ExpectPacket(&q)
+		pkt = q
+	case "*rtmp.WindowAcknowledgementSize":
+		var q *rtmp.WindowAcknowledgementSize
+		m, err = pr.ExpectPacket(&q)
+		pkt = q
+	case "*rtmp.SetPeerBandwidth":
+		var q *rtmp.SetPeerBandwidth
+		m, err = pr.ExpectPacket(&q)
+		pkt = q
+	case "*rtmp.UserControl":
+		var q *rtmp.UserControl
+		m, err = pr.ExpectPacket(&q)
+		pkt = q
+	default:
+		known = false
+	}
+	return
+}
+
 type reg struct {
 	tid          float64
 	name         string
@@ -437,7 +518,10 @@ func evalDir(res *kernel.Result, p *kernel.Plan, from, to *side, name string) bo
 	ri := 0
 	ambStep := map[float64]int{}
 	advance := func(st int) {
-		for ri < len(regs) && regs[ri].step1 < st {
+		// one task runs per scheduler step, so a registration that returned in
+		// step st and a decode that starts in step st belong to the same task,
+		// in program order
+		for ri < len(regs) && regs[ri].step1 <= st {
 			r := regs[ri]
 			if as, ok := ambStep[r.tid]; ok && r.step0 <= as {
 				// a response was decoded while this registration was in
@@ -557,13 +641,22 @@ func evalDir(res *kernel.Result, p *kernel.Plan, from, to *side, name string) bo
 			first := -1
 			for j := pos; j < len(sent); j++ {
 				sr := sent[j]
-				if sr.isResp {
-					break
-				}
 				var hit bool
 				if rr.mode == "wait" {
-					hit = expect(sr, rr.step0, rr.step, false).types[0] == rr.want
+					ex := expect(sr, rr.step0, rr.step, false)
+					hit = ex.must && ex.types[0] == rr.want
+					if !hit && sr.isResp {
+						// a response the typed wait skips is decoded, i.e. consumed
+						if ex2 := expect(sr, rr.step0, rr.step, true); !ex2.must {
+							res.Invalid = true // not a scenario a typed wait is specified for
+							res.Stat("invalid_skipped_response_not_definite", 1)
+							return true
+						}
+					}
 				} else {
+					if sr.isResp {
+						break
+					}
 					mt := packetMsgType(sr.kind)
 					hit = strings.Contains(rr.want, fmt.Sprintf("[%d ", mt)) || strings.Contains(rr.want, fmt.Sprintf(" %d]", mt)) || strings.Contains(rr.want, fmt.Sprintf("[%d]", mt))
 				}
@@ -579,6 +672,7 @@ func evalDir(res *kernel.Result, p *kernel.Plan, from, to *side, name string) bo
 					return false
 				}
 				res.Invalid = true
+				res.Stat("invalid_wait_without_definite_match:"+p.Variant+":"+rr.want, 1)
 				return true
 			}
 			if rr.err != nil {
@@ -599,6 +693,9 @@ func evalDir(res *kernel.Result, p *kernel.Plan, from, to *side, name string) bo
 				return false
 			}
 			if rr.mode == "wait" {
+				if sr.isResp {
+					expect(sr, rr.step0, rr.step, true) // the awaited response is consumed
+				}
 				if !judge(first, sr, rr, exp{[]string{rr.want}, true}) {
 					return false
 				}
